@@ -1,5 +1,5 @@
 (* Properties/C15.v — rejected builder calls have no effect; no dangling ids (C15) *)
-From HpoV Require Import Gen.Consts Model.Base Model.Group Model.Onto Model.Dump Model.Script Run.World Run.Ser Run.C15 Proofs.C15P Proofs.ScriptP Proofs.ClosureP Model.Dump Proofs.WalkP Proofs.WalkAllP Proofs.AllPathsP Proofs.AcyclicP Proofs.GroupP Proofs.RecordsP Proofs.TotalReloadP Proofs.DistP Proofs.RoundTripP Proofs.AnnotP Proofs.JaxP Proofs.DecodeAnyP Model.Binary Model.Text Model.SubOnt.
+From HpoV Require Import Gen.Consts Model.Base Model.Group Model.Onto Model.Dump Model.Script Run.World Run.Ser Run.C15 Proofs.C15P Proofs.ScriptP Proofs.ClosureP Model.Dump Proofs.WalkP Proofs.WalkAllP Proofs.AllPathsP Proofs.AcyclicP Proofs.GroupP Proofs.RecordsP Proofs.TotalReloadP Proofs.BuilderTotalP Proofs.DistP Proofs.RoundTripP Proofs.AnnotP Proofs.JaxP Proofs.DecodeAnyP Model.Binary Model.Text Model.SubOnt.
 
 Theorem C15_referentially_closed : forall d, ref_closed d = true ->
   (forall t, In t (do_terms d) ->
@@ -86,6 +86,19 @@ Theorem C15_annotate_on_absent_term_is_rejected : forall k id name tid o, o_get 
   b_annotate k id name tid o = Err DoesNotExist.
 Proof. exact annotate_absent_term. Qed.
 
+(* THE BUILDER API IS TOTAL ON ACYCLIC INPUT: a script whose term ids are inside the id space and whose
+   successful add_parent calls describe an acyclic graph always runs to the end — every rejected call
+   is an Err the client can ignore, connect_all_terms has enough fuel, every annotate_* propagation
+   returns — whatever the order of the calls (icf: an information-content function that never panics) *)
+Theorem C15_builder_scripts_run_to_the_end : forall icf s,
+  (let '(_, terms, _, _, _) := s in forall t : N * list N, In t terms -> fst t < MAX_HPO_ID) ->
+  (let '(ver, terms, parents, _, _) := s in
+   forall o1 r2, foldM (fun o (t : N * list N) => b_new_term (snd t) (fst t) o) terms (set_version ver onto_new) = Ok o1 ->
+     run_ops (fun o (pc : N * N) => step_keep (b_add_parent (fst pc) (snd pc) o) o) parents o1 = Ok r2 -> acyclic (o_arena (fst r2))) ->
+  (forall N n, icf N n <> Panic /\ icf N n <> Fuel) ->
+  exists codes r, run_script icf s = Ok (codes, r).
+Proof. exact run_script_total. Qed.
+
 Print Assumptions C15_referentially_closed.
 Print Assumptions C15_same_observation.
 Print Assumptions C15_model_failed_add_parent_no_trace.
@@ -99,3 +112,4 @@ Print Assumptions C15_binary_ontologies_walk_returns.
 Print Assumptions C15_every_constructed_ontology_walk_returns.
 Print Assumptions C15_annotate_on_stored_term_succeeds.
 Print Assumptions C15_annotate_on_absent_term_is_rejected.
+Print Assumptions C15_builder_scripts_run_to_the_end.
